@@ -31,10 +31,10 @@ LOWER_TECH = ("TLA+ model checking: MC_Lower.tla enumerates every well-nested fu
 LOWER = {
  "C15": "every plan of before/after/alternate/removal injections (1-2 entries exhaustive on small bodies, up to 5 on seeded random larger ones, six API paths incl. ComponentIterator; a replacement and a removal of one instruction in both orders: the last request decides): the decoded output body must equal ProbeIdeal!Splice exactly, locals unchanged",
  "C16": "for plans of neutral probes in all non-replacing modes the lowered body must validate and, on every explored decision/trap path (loops bounded by 2 back-edges), produce the same sequence of original effects, decisions, return value and trap as the original body; before/after probes must fire at the positional moments",
- "C17": "function entry/exit probes: the ideal machine fires entry once before the first original event and exit before ret however reached (fall-through, return, branch to the function label) and before unreachable, never when an op traps; compared as event logs on every path; arity-1 results compared by value",
+ "C17": "function entry/exit probes: the ideal machine fires entry once before the first original event and exit before ret however reached (fall-through, return, branch to the function label, tail call) and before unreachable / throw, never when an op traps; bodies contain try_table blocks; also on a function that was built and replaced an import in a module without local functions; compared as event logs on every path; results of arity 1 and 2 (multi-value) compared by value",
  "C18": "block-entry probes on block/loop/if/else: ideal fires on entering the body/arm incl. every loop back-edge; compared on every path",
  "C19": "block-exit probes: ideal fires when the body falls through to its own end (if: then-arm to its else/end), never on branches; bodies include constructs nested in if-arms",
- "C20": "semantic-after on block/if/else and on br/br_if/br_table with non-loop targets: ideal fires on arrival after the construct / once per executed branch; compared on every path",
+ "C20": "semantic-after on block/if/else and on br/br_if/br_table with non-loop targets: ideal fires on arrival after the construct / once per executed branch; compared on every path. NOT covered: br_on_* (reference-typed branches are outside the execution model; seeded change C20-br-on-cast-fail-fallthrough-dropped is not caught)",
  "C21": "block-alternate on block/loop/if/else (with and without replacement code, with before/after elsewhere): decoded output must equal ProbeIdeal!Splice (region removed, replacement in place)",
  "C22": "every accepted special-mode injection through ModuleIterator, ComponentIterator (each at the current location and through inject_at) and FunctionModifier (location and inject_at) must leave its probe in the encoded body and no 'BUG:' record in the log",
 }
